@@ -38,6 +38,35 @@ static double double_of_key(int64_t k)
 	double d; memcpy(&d, &b, 8); return d;
 }
 
+// Field<T, N>::is_valid() is not virtual: reach it through the exact class of the object the
+// metadata created (dynamic_cast, no layout assumptions).  One instantiation per tag 0..FV_MAX-1.
+// result: 1 / 0, or -1 when the object's class has no is_valid() (Field<Boolean, N>, time types, ...)
+static const unsigned FV_MAX = 1024;
+struct FieldProbe { int valid, idx; char cls; };
+template<unsigned short N>
+static FieldProbe field_probe(const BaseField *bf)
+{
+	FieldProbe r = { -1, -2, '?' };
+	if (const Field<f8String, N> *p = dynamic_cast<const Field<f8String, N> *>(bf)) { r.valid = p->is_valid(); r.idx = p->get_rlm_idx(); r.cls = 's'; }
+	else if (const Field<int, N> *p = dynamic_cast<const Field<int, N> *>(bf)) { r.valid = p->is_valid(); r.idx = p->get_rlm_idx(); r.cls = 'i'; }
+	else if (const Field<char, N> *p = dynamic_cast<const Field<char, N> *>(bf)) { r.valid = p->is_valid(); r.idx = p->get_rlm_idx(); r.cls = 'c'; }
+	else if (const Field<fp_type, N> *p = dynamic_cast<const Field<fp_type, N> *>(bf)) { r.valid = p->is_valid(); r.idx = p->get_rlm_idx(); r.cls = 'd'; }
+	else if (const Field<Boolean, N> *p = dynamic_cast<const Field<Boolean, N> *>(bf)) { r.idx = p->get_rlm_idx(); r.cls = 'b'; }
+	return r;
+}
+typedef FieldProbe (*field_probe_fn)(const BaseField *);
+template<unsigned B, unsigned L> struct FillProbe
+	{ static void fill(field_probe_fn *t) { FillProbe<B, L / 2>::fill(t); FillProbe<B + L / 2, L - L / 2>::fill(t); } };
+template<unsigned B> struct FillProbe<B, 1>
+	{ static void fill(field_probe_fn *t) { t[B] = field_probe<static_cast<unsigned short>(B)>; } };
+static const field_probe_fn *probe_table()
+{
+	static field_probe_fn tab[FV_MAX];
+	static bool done(false);
+	if (!done) { FillProbe<0, FV_MAX>::fill(tab); done = true; }
+	return tab;
+}
+
 static char type_letter(FieldTrait::FieldType ft)
 {
 	if (ft == FieldTrait::ft_Boolean) return 'b';
@@ -69,10 +98,21 @@ static std::string dump(const BaseEntry *be)
 	return os.str();
 }
 
+static bool g_with_field(false);	// S lines: also through a typed field object holding the value
+
 template<typename T>
 static void direct(std::ostream& os, const RealmBase& r, const T& v, bool first)
 {
 	os << (first ? "" : ",") << r.get_rlm_idx<T>(v) << ':' << (r.is_valid<T>(v) ? 1 : 0);
+	if (g_with_field)
+	{
+		// the field object's own wrappers (value constructor of the specialisation for T)
+		const Field<T, 7777> fld(v, &r);
+		const BaseField& bf(fld);
+		os << ':' << bf.get_rlm_idx() << ':' << (fld.is_valid() ? 1 : 0);
+		const Field<T, 7778> bare(v);		// no realm: always valid, no index
+		os << ':' << static_cast<const BaseField&>(bare).get_rlm_idx() << ':' << (bare.is_valid() ? 1 : 0);
+	}
 }
 
 static void direct_all(std::ostream& os, const RealmBase& r, char ty, const std::vector<std::string>& w, size_t from)
@@ -114,13 +154,30 @@ static std::string do_line(const std::string& line)
 		const F8MetaCntx& ctx(*pctx);
 		const unsigned fnum(strtoul(w[1].c_str(), 0, 10));
 		const BaseEntry *be(ctx.find_be(fnum));
-		if (!be || !be->_rlm) return "NOREALM";
-		const RealmBase& r(*be->_rlm);
-		const char ty(type_letter(r._ftype));
-		os << dump(be) << " R=";
+		if (!be) return "NOFIELD";
 		if (w[0][0] == 'D')
-			direct_all(os, r, ty, w, 2);
-		else for (size_t i(2); i < w.size(); ++i)
+		{
+			if (!be->_rlm) return "NOREALM";
+			os << dump(be) << " R=";
+			direct_all(os, *be->_rlm, type_letter(be->_rlm->_ftype), w, 2);
+			return os.str();
+		}
+		if (fnum >= FV_MAX) return "BAD-CASE";
+		char ty('?');
+		if (be->_rlm)
+		{
+			ty = type_letter(be->_rlm->_ftype);
+			os << dump(be) << " R=";
+		}
+		else
+		{
+			// a field without a realm: the class of the object decides how the value is given
+			std::unique_ptr<BaseField> probe(ctx.create_field(static_cast<unsigned short>(fnum), "1"));
+			ty = probe_table()[fnum](probe.get()).cls;
+			if (ty != 's' && ty != 'i' && ty != 'c') return "NOREALM";
+			os << "K=n T=" << ty << " N=" << be->_name << " M= D= R=";
+		}
+		for (size_t i(2); i < w.size(); ++i)
 		{
 			std::string from;
 			switch (ty)
@@ -132,18 +189,23 @@ static std::string do_line(const std::string& line)
 			}
 			std::unique_ptr<Message> msg(ctx.create_msg("0"));
 			BaseField *fld(ctx.create_field(static_cast<unsigned short>(fnum), from.c_str()));
-			const int idx(fld->get_rlm_idx());
+			const int idx(fld->get_rlm_idx());				// virtual, through BaseField
+			const FieldProbe fp(probe_table()[fnum](fld));	// the object's own is_valid() / get_rlm_idx()
+			if (fp.idx != idx) { delete fld; return "INCONSISTENT get_rlm_idx"; }
 			msg->add_field_decoder(fnum, 1, fld);	// owned by the message from here on
 			std::ostringstream p1, p2;
 			msg->print_field(fnum, p1);
 			msg->MessageBase::print(p2, 0);
-			os << (i == 2 ? "" : ",") << idx << ':' << tohex(tail_after(p1.str(), fnum, false))
+			os << (i == 2 ? "" : ",") << idx << ':';
+			if (fp.valid < 0) os << '-'; else os << fp.valid;
+			os << ':' << tohex(tail_after(p1.str(), fnum, false))
 				<< ':' << tohex(tail_after(p2.str(), fnum, true));
 		}
 		return os.str();
 	}
 	if (w[0] == "S" && w.size() >= 4)
 	{
+		struct WF { WF() { g_with_field = true; } ~WF() { g_with_field = false; } } wf;
 		const RealmBase::RealmType kd(w[1] == "r" ? RealmBase::dt_range : RealmBase::dt_set);
 		const char ty(w[2][0]);
 		const size_t n(strtoul(w[3].c_str(), 0, 10));
